@@ -344,8 +344,8 @@ mut("own-take-clones", "break", ["C08"], "AtomicRc::take leaves the pointer in p
     [ed(S, "Rc::from_raw(core::mem::take(self.link.get_mut()))", "Rc::from_raw(*self.link.get_mut())")],
     ["OWN-BALANCE", "OWN-PROVENANCE"])
 mut("own-cascade-no-into-raw", "break", ["C04", "C01"], "cascade decrements the child and then drops the Rc too",
-    [ed(U, "let next_ptr = next.into_raw();", "let next_ptr = Rc::from_raw(next.snapshot(guard).ptr).into_raw();")],
-    ["OWN-BALANCE"], allow_error=True)
+    [ed(U, "let next_ptr = next.into_raw();", "let next_ptr = next.snapshot(guard).ptr;")],
+    ["OWN-BALANCE"])
 
 # ---------------------------------------------------------------- links
 mut("link-swap-no-timestamp", "break", ["C02", "C08"], "AtomicRc::swap does not stamp the link",
@@ -609,6 +609,58 @@ mut("ebr-epoch-successor-1", "break", ["C14"], "successor adds 1 (flips the pin 
 mut("ebr-epoch-wrapping-sub-pinbit", "break", ["C14", "C13"], "wrapping_sub no longer masks the pin bit before the shift is applied to a sum",
     [ed(EPF, "self.data.wrapping_sub(rhs.data & !1) as isize >> 1", "(self.data.wrapping_sub(rhs.data) as isize + 1) >> 1")],
     ["EPOCH-ARITH"])
+
+mut("ebr-unpin-clear-before-collect", "break", ["C13", "C16"], "unpin clears the local epoch before collecting",
+    [ed(I, """        let guard_count = self.guard_count.get();
+        if guard_count == 1 && !self.collecting.get() {""", """        let guard_count = self.guard_count.get();
+        if guard_count == 1 {
+            self.epoch.store(Epoch::starting(), Ordering::Release);
+        }
+        if guard_count == 1 && !self.collecting.get() {"""),
+     ed(I, """                debug_assert!(self.epoch.load(Ordering::Relaxed).is_pinned());
+""", "")], ["EBR-COLLECT-OUTERMOST", "EBR-GUARD-COUNT"])
+mut("ebr-tls-fallback-other-collector", "break", ["C20"], "with_handle's fallback registers with a fresh collector",
+    [ed(DF, ".unwrap_or_else(|_| f(&collector().register()))", ".unwrap_or_else(|_| f(&Collector::new().register()))")],
+    ["EBR-TLS"])
+mut("cw-dispose-unprotected", "break", ["C02", "C13"], "dispose runs the cascade under an unprotected guard", [
+    ed(U, "use crate::ebr_impl::{cs, global_epoch, Guard, Tagged, HIGH_TAG_WIDTH};", "use crate::ebr_impl::{cs, global_epoch, unprotected, Guard, Tagged, HIGH_TAG_WIDTH};"),
+    ed(U, """        let guard = &cs();
+        dispose_general_node(inner, 0, counter, guard);""", """        let guard = &unprotected();
+        dispose_general_node(inner, 0, counter, guard);""")], ["CW-DEFERRED-ONLY", "EBR-EPOCH-WRITERS"])
+mut("cw-revived-no-return", "break", ["C04", "C05"], "revived child: token consumed but the destruction goes on",
+    [ed(U, """                    RcInner::decrement_strong(rc, 1, Some(guard));
+                    return;
+                }""", """                    RcInner::decrement_strong(rc, 1, Some(guard));
+                    break;
+                }""")], ["CW-DESTRUCT-ONCE", "CW-CASCADE-DECISION"])
+mut("cw-upgrade-null-none", "break", ["C05"], "Weak::upgrade of a null pointer returns None",
+    [ed(W, """        let Some(obj) = (unsafe { self.ptr.as_raw().as_ref() }) else {
+            return Some(Rc::from_raw(self.ptr));
+        };""", """        let Some(obj) = (unsafe { self.ptr.as_raw().as_ref() }) else {
+            return None;
+        };""")], ["CW-INC-FAIL-ON-DESTRUCTED"])
+mut("own-snapshot-counted-no-inc", "break", ["C01"], "Snapshot::counted creates an Rc without incrementing",
+    [ed(S, """        let rc = Rc::from_raw(self.ptr);
+        unsafe {
+            if let Some(cnt) = rc.ptr.as_raw().as_ref() {
+                cnt.increment_strong();
+            }
+        }
+        rc""", """        let rc = Rc::from_raw(self.ptr);
+        rc""")], ["OWN-BALANCE"])
+mut("own-weak-from-snapshot-no-inc", "break", ["C03"], "WeakSnapshot::counted does not add a weak share",
+    [ed(W, """        let weak = Weak::from_raw(self.ptr);
+        weak.increment_weak();
+        weak""", """        let weak = Weak::from_raw(self.ptr);
+        weak""")], ["OWN-BALANCE"])
+mut("own-atomicrc-drop-double", "break", ["C04", "C01"], "AtomicRc::drop releases two shares",
+    [ed(S, """        let ptr = (*self.link.get_mut()).as_raw();
+        unsafe {
+            if let Some(cnt) = ptr.as_mut() {
+                RcInner::decrement_strong(cnt, 1, None);""", """        let ptr = (*self.link.get_mut()).as_raw();
+        unsafe {
+            if let Some(cnt) = ptr.as_mut() {
+                RcInner::decrement_strong(cnt, 2, None);""")], ["OWN-BALANCE"])
 
 # ---------------------------------------------------------------- bits / arithmetic
 mut("bit-low-bits-off-by-one", "break", ["C11"], "low_bits mask one bit too wide",
